@@ -5,6 +5,7 @@
 pub mod chain;
 pub mod chainstyle;
 pub mod crash;
+pub mod deadlines;
 pub mod infra;
 pub mod justice;
 pub mod ledger;
@@ -122,6 +123,9 @@ fn run_world_inner(mut wd: World, mut rng: Option<Rng>, trace: Option<Vec<Action
 		if wd.trace.last() == Some(&Action::Liquidate) {
 			wd.wealth_oracle(&[]);
 			wd.justice_oracle();
+			if wd.cfg.profile == "deadlines" {
+				wd.claim_window_oracle();
+			}
 		}
 		if wd.cfg.profile == "roundtrip" {
 			for n in 0..wd.nodes.len() {
